@@ -434,9 +434,11 @@ Proof.
   (* pass 8: the node's own additions, then the children's *)
   assert (M7 : forall k, In k AK -> mem_atom k (map fst kvs7) = false).
   { intros k Hk. rewrite <- Keys7. apply akeys_spec in Hk as [_ M]. exact M. }
-  unfold A8 at 1. rewrite (dict_own_adds conv bidir (fun k => ov (assoc k kvs2)) AK kvs7 po7 e7).
-  rewrite (fold_dict_set_new (fun k => ov (assoc k kvs2)) AK kvs7 M7 AK_nodup).
   set (kvs7' := kvs7 ++ map (fun k => (k, ov (assoc k kvs2))) AK).
+  assert (EA8 : irun A8 (mkSt (VDict kvs7) po7 e7) = mkSt (VDict kvs7') po7 e7).
+  { unfold A8. rewrite (dict_own_adds conv bidir (fun k => ov (assoc k kvs2)) AK kvs7 po7 e7).
+    rewrite (fold_dict_set_new (fun k => ov (assoc k kvs2)) AK kvs7 M7 AK_nodup). reflexivity. }
+  rewrite EA8.
   assert (R7' : Rel K (mkSt (VDict kvs7') po7 e7) (fun k => run_passes (restrictP k [c1; c2; c3; c4; c5; q6; q7]) (S0d k))).
   { eapply Rel_reroot_dict; [exact R7|]. intros k Hk. destruct R7 as (_ & G7 & _). pose proof (G7 k Hk) as G. cbn [root get_item] in G.
     unfold kvs7'. rewrite G. apply assoc_app_l. exact G. }
@@ -524,10 +526,10 @@ Proof.
       assert (k = k'); [|subst k'; exact Hk'].
       destruct (Kc9 k' Hk') as [H'|[H'|(v & [])]].
       * apply K_spec in H' as [H1' _]. symmetry. apply Hident; [exact H1'|exact Hk|rewrite py_eq_sym; exact E0].
-      * apply akeys_spec in H' as [H2' _]. apply (nodup_py (map fst kvs2)) in E0; try assumption.
+      * apply akeys_spec in H' as [H2' _].
         destruct (atom_eqb k k') eqn:Eb; [apply atom_eqb_eq in Eb; exact Eb|].
-        exfalso. assert (k <> k') by (intros ->; rewrite atom_eqb_refl in Eb; discriminate).
-        pose proof (nodup_py (map fst kvs2) k k' N2 Hk H2' H) as Z. congruence.
+        exfalso. assert (Hne : k <> k') by (intros ->; rewrite atom_eqb_refl in Eb; discriminate).
+        pose proof (nodup_py (map fst kvs2) k k' N2 Hk H2' Hne) as Z. congruence.
     + intros k v v2 Hin Hin2.
       assert (A2 : assoc k kvs2 = Some v2) by (eapply assoc_nodup; [exact N2|exact Hin2|apply py_eq_refl]).
       assert (Hk10' : In k (map fst kvs10)) by (apply in_map_iff; exists (k, v); split; [reflexivity|exact Hin]).
